@@ -11,15 +11,15 @@ mod verif_kani_install_manifest {
         i / 8 < mask.len() && (mask[i / 8] >> (7 - (i % 8))) & 1 == 1
     }
 
-    /// C19 (bounded: exactly 9 files, 2 tags "a"/"b", any masks, any sizes): all-of / any-of queries and
+    /// C19 (bounded: exactly 2 files, 2 tags "a"/"b", any masks, any sizes): all-of / any-of queries and
     /// the size total equal intersection / union / sum over the oracle bit sets
     #[kani::proof]
-    #[kani::unwind(12)]
+    #[kani::unwind(5)]
     fn tag_queries_match_set_model_bounded() {
-        let n: usize = 9;
-        let ma: [u8; 2] = kani::any();
-        let mb: [u8; 2] = kani::any();
-        let sizes: [u32; 9] = kani::any();
+        let n: usize = 2;
+        let ma: [u8; 1] = kani::any();
+        let mb: [u8; 1] = kani::any();
+        let sizes: [u32; 2] = kani::any();
         let len = (n + 7) / 8;
         let mut entries = Vec::new();
         let mut i = 0;
